@@ -512,8 +512,10 @@ pub fn main_c05(out: &Path, tier: &str, seed: u64) {
     let n_progs = std::env::var("H01_C05_PROGS").ok().and_then(|s| s.parse().ok()).unwrap_or(n_progs);
     let mut gstats = crate::genp::Stats::default();
     let (progs, vectors, _) = crate::generate_crate(seed, 500, n_progs, n_vecs, &mut gstats);
-    let gen_runs = run_leg(&configs, |cfg, k| leg_gen(out, cfg, k, &progs, &vectors));
-    compare("gen", &gen_runs, &mut failures, &mut stats);
+    let gen_runs = if want("gen") { run_leg(&configs, |cfg, k| leg_gen(out, cfg, k, &progs, &vectors)) } else { vec![] };
+    if want("gen") {
+        compare("gen", &gen_runs, &mut failures, &mut stats);
+    }
     // the reference semantics has no configuration parameter: the interpreter's answer must be the
     // answer under EVERY configuration
     let mut ref_checked = 0;
@@ -584,12 +586,12 @@ pub fn main_c05(out: &Path, tier: &str, seed: u64) {
             c(OptKind::Small(100_000), true, Some(2), Some(Solver::Linear)),
             c(OptKind::Avoid, false, None, Some(Solver::NonLinear)),
         ];
-        let c_runs = run_leg_n(&core_cfgs, 4, |cfg, _| leg_tests(cfg, "/repo/corelib", "corelib:", false));
+        let c_runs = run_leg_n(&core_cfgs, 2, |cfg, _| leg_tests(cfg, "/repo/corelib", "corelib:", false));
         compare("corelib_tests", &c_runs, &mut failures, &mut stats);
     }
 
     // ---- the kernel's tie: real lowerings before / after the real branch_inversion pass ----
-    let pass_stats = pass_leg(out, &progs, tier);
+    let pass_stats = if want("pass") { pass_leg(out, &progs, tier) } else { serde_json::Value::Null };
 
     let total_items: u64 = stats.values().map(|v| v["items"].as_u64().unwrap_or(0)).sum();
     let total_cmp: u64 = stats.values().map(|v| v["comparisons"].as_u64().unwrap_or(0)).sum();
@@ -600,8 +602,9 @@ pub fn main_c05(out: &Path, tier: &str, seed: u64) {
         "reference_checked": ref_checked, "reference_disagreements": ref_bad,
         "failures": failures.len(), "samples": samples, "pass_cases": pass_stats,
     });
-    std::fs::write(out.join("c05_summary.json"), serde_json::to_string_pretty(&summary).unwrap()).unwrap();
-    std::fs::write(out.join("c05_failures.json"), serde_json::to_string_pretty(&failures).unwrap()).unwrap();
+    let suffix = if only.is_empty() { String::new() } else { format!("_{}", only.replace(',', "_")) };
+    std::fs::write(out.join(format!("c05_summary{suffix}.json")), serde_json::to_string_pretty(&summary).unwrap()).unwrap();
+    std::fs::write(out.join(format!("c05_failures{suffix}.json")), serde_json::to_string_pretty(&failures).unwrap()).unwrap();
     println!(
         "h01 c05: {} configurations, {} items, {} pairwise comparisons, {} vs reference semantics, {} failures",
         configs.len(),
